@@ -170,6 +170,35 @@ CLAIMED = {
         'user-held objects are decided on the implementation (oracle), not by a theorem: partial for those clauses. Closed under the global context.',
    technique='Coq proofs over generated type-dispatch tables of the parameter updater + in-Coq differential evaluation over all built-in module parameters',
    design='5 C17'),
+ 'C01': dict(
+   text='Coq theorem on an abstract machine (components stepping over a shared state, each seeing only the draws of the distributions named after it, plus the process-wide generator as an explicit '
+        'state the environment may perturb before every step): if no component reads the process-wide generator, private and shared states after any number of steps are independent of its '
+        'initial state and of every perturbation; the seed of every distribution changes with the base seed. The set of classes that DO draw from the process-wide generator is REGENERATED from '
+        'the source (AST scan) and the theorem`s hypothesis is refuted for them (known findings). On real sims: every distribution seed = seed_gen(sha(trace), base) (Coq); the configurations that '
+        'advance np.random during a run are exactly those containing a generated global-generator class; results and final agent states are compared bit for bit across process histories '
+        '(np.random draws between init and run and at a loop boundary, other sims initialised / run in between, deep-copied twins, a worker process with another PYTHONHASHSEED).',
+   note='PARTIAL: the machine is abstract -- that real modules read only their own distributions and the declared state is not derived from the source; it is tied by pins (private generator per '
+        'distribution seeded from sha(trace) + base seed, seed reset first in Sim.init), by the generated list of global-generator call sites, and by the differential runs. NumPy SeedSequence / '
+        'PCG64 stream distinctness is not proved. Known findings: Births, RandomNet (odd contacts), NCD draw from np.random. Closed under the global context.',
+   technique='Coq non-interference proof on an abstract component machine + generated list of global-generator call sites + bit-exact differential runs across process histories',
+   design='5 C01'),
+ 'C02': dict(
+   text='Coq theorems on the same abstract machine: a sampling-only component (reads shared state, samples its own distributions) inserted at ANY position of the module list leaves every other '
+        'component`s private state and the shared state identical after any number of steps; two independent components may be listed in either order. On real sims: traces and seeds of the '
+        'existing distributions are unchanged by every perturbation and equal seed_gen (Coq); results and agent states of the unperturbed modules are compared bit for bit between base and '
+        'perturbed runs (sampling-only analyzers / interventions with 1..7 distributions, zero-coverage vaccination, zero-efficacy vaccine, extra independent SIS / SIR, reordered diseases).',
+   note='PARTIAL for the same reason as C01: the premise that a real component sees only the draws of its own distributions is tied by pins and differential runs, not derived. Closed under the global context.',
+   technique='Coq non-interference / commutation proofs on an abstract component machine + bit-exact differential runs under null perturbations',
+   design='5 C02'),
+ 'C18': dict(
+   text='Coq theorems: for every permutation of the replicate indices (any scheduling by any number of workers) filing each result under its index gives exactly the standalone runs with seeds '
+        'reseed_gen base i (REGENERATED from single_run: base + i), members have pairwise distinct seeds; the mean and every quantile (linear interpolation on the sorted members) are invariant '
+        'under permutation of the members. On real runs: member seeds = reseed_gen (Coq); every member of multi_run / MultiSim (serial, parallel with 1/2/4 workers, in-place on/off, list of sims, '
+        'debug) is compared bit for bit with the standalone run of seed base + i; reduce() is compared with NumPy statistics, with the model quantile / mean in Coq, and across member permutations.',
+   note='PARTIAL: a standalone run as a function of its seed is C01`s conclusion (abstract); process-level scheduling, pickling and the in-place __dict__ update are exercised, not modelled. '
+        'Quantile invariance is proved for integer-valued members (Leibniz order), the mean over Q. Fixed: MultiSim debug mode raised. Closed under the global context.',
+   technique='Coq proofs of schedule- and order-invariance over the generated reseeding formula + bit-exact comparison of multi-run members with standalone runs',
+   design='5 C18'),
 }
 
 checks = []
